@@ -378,8 +378,10 @@ class TPAnalysis:
                 self.effects[x][why].add(eff)
 
     def _restart_rows(self):
-        """[(row text, atoms, field values)] for the states in which the pool has no worker: freshly constructed, every worker
-        expired, and after stop() (all workers left through the stop exit; clear() emptied the queue)"""
+        """[(row text, atoms, field values, notes)] for the states in which the pool has no worker: freshly constructed, every worker
+        expired, and after stop().  The values of the integral pool fields the rules do not model are obtained by following the
+        history on them: constructor -> start() (the path that creates the worker) -> the worker's way out (its net effect, from the
+        evaluated worker paths) -> stop() (what it writes itself)."""
         rows = []
         init = {}
         ct = [g for g in self.facts.fns if g.d.get('class') == TP and g.d.get('ctor') and not g.d.get('copy') and not g.d.get('move')]
@@ -389,26 +391,60 @@ class TPAnalysis:
                     if e.kind == 'write' and e.obj in self.extra:
                         lv = as_lin(e.val) if isinstance(e.val, (Lin, int, bool)) else None
                         init[e.obj] = lv if lv is not None and lv.is_const() else None
-        def after(why, k):
-            vals = {}; notes = []
+        for x, fd in self.extra.items():
+            # in-class initialiser `T x {c};` (no constructor write)
+            if x not in init and fd.get('init_const') is not None: init[x] = Lin.const(int(fd['init_const']))
+
+        def worker_effect(state, why, k, notes):
+            out = dict(state)
             for x in self.extra:
                 effs = self.effects[x][why] | (self.effects[x]['loop'] - {('add', 0)})
-                i0 = init.get(x)
-                if effs <= {('add', 0)}: v = i0
-                elif len(effs) == 1 and None not in effs:
+                if effs <= {('add', 0)}: continue
+                if len(effs) == 1 and None not in effs:
                     kind, d = next(iter(effs))
-                    v = Lin.const(d) if kind == 'set' else (i0 + Lin.const(d * k) if i0 is not None else None)
-                    if v is not None and (i0 is None or v != i0): notes.append((x, why, v))
-                else: v = None
-                if v is not None: vals[x] = v
-            return vals, notes
-        fresh, _ = after('loop', 0)
-        fresh = {x: v for x, v in ((x, init.get(x)) for x in self.extra) if v is not None}
-        rows.append(('a freshly constructed pool', dict(running=True), fresh, []))
-        v, notes = after('expiry', 1)
-        if notes: rows.append(('after the only worker expired', dict(running=True), v, notes))
-        v, notes = after('stop', 1)
-        rows.append(('after start(); stop()', dict(running=False), v, notes))
+                    v = Lin.const(d) if kind == 'set' else (state[x] + Lin.const(d * k) if state.get(x) is not None else None)
+                    if v is not None and v != state.get(x): notes.append((x, f'a worker that leaves through the {why} exit (return at {self.effect_site.get((x, why), ("", "?"))[1]}) leaves its write at {self.effect_site.get((x, why), ("?", ""))[0]} in place', v))
+                    out[x] = v
+                else: out[x] = None
+            return out
+
+        def owner_effect(fname, atoms, state, notes, only_spawning=False):
+            """what one call of an owner-side function does to the extra fields (final values must agree over its normal paths)"""
+            g = self.fn.get(fname)
+            if g is None or not self.extra: return dict(state)
+            dom = TPDomain(atoms); dom.fields = {x: v for x, v in state.items() if v is not None}
+            finals = {x: set() for x in self.extra}; sites = {}
+            for P, E in run_paths(self.facts, g, dom):
+                if P.end in ('throw', 'noreturn'): continue
+                if only_spawning and not evs(E, 'thread'): continue
+                for x in self.extra:
+                    ws = [e for e in E if e.kind == 'write' and e.obj == x]
+                    if not ws: finals[x].add(('same',)); continue
+                    v = ws[-1].val; lv = as_lin(v) if isinstance(v, (Lin, int, bool)) else None
+                    finals[x].add(('val', lv.c) if lv is not None and lv.is_const() else ('unknown',)); sites[x] = ws[-1].site
+            out = dict(state)
+            for x, fs in finals.items():
+                if not fs or fs == {('same',)}: continue
+                if len(fs) == 1 and next(iter(fs))[0] == 'val':
+                    v = Lin.const(next(iter(fs))[1])
+                    if v != state.get(x): notes.append((x, f'{fname}() leaves it at {v} ({sites.get(x, "")})', v))
+                    out[x] = v
+                else: out[x] = None
+            return out
+
+        fresh = {x: init.get(x) for x in self.extra}
+        rows.append(('a freshly constructed pool', dict(running=True), {x: v for x, v in fresh.items() if v is not None}, []))
+        started_notes = []
+        started = owner_effect('start', dict(pool_empty=True, queue0_empty=True, max_vs_size='>', max_sign='>', running=True), fresh, started_notes, only_spawning=True)
+        n1 = list(started_notes)
+        exp = worker_effect(started, 'expiry', 1, n1)
+        if any(exp.get(x) != fresh.get(x) for x in self.extra) and any(nt[0] for nt in n1[len(started_notes):]):
+            rows.append(('after the only worker expired', dict(running=True), {x: v for x, v in exp.items() if v is not None}, n1))
+        n2 = list(started_notes)
+        st = worker_effect(started, 'stop', 1, n2)
+        st = owner_effect('stop', dict(timeout_sign='<'), st, n2)
+        n2 = [nt for nt in n2 if st.get(nt[0]) != fresh.get(nt[0])]          # only what makes the restart state differ from a fresh pool
+        rows.append(('after start(); stop()', dict(running=False), {x: v for x, v in st.items() if v is not None}, n2))
         return rows
 
     # ---- start(): TP.3 (insert end), TP.5, TP.8, TP.10 -----------------------------------------------------------------------
@@ -436,8 +472,12 @@ class TPAnalysis:
                 th = evs(E, 'thread')
                 may = ord_ == '>' or neg
                 if th:
-                    self.add('TP.8', may, f'row {row}: a worker thread is created', th[0].site,
-                             '' if may else f'a worker is spawned although the pool already has max threads: {row}')
+                    forks8 = [c for c, val, how in P.decisions if how == 'fork']
+                    if not may and forks8:
+                        self.add('TP.8', None, f'row {row}: a worker thread is created', th[0].site, f'the spawn depends on `{forks8[0].text()[:70]}`, which is not a comparison of the maximum with the size of m_pool: whether the bound is respected is not followed')
+                    else:
+                        self.add('TP.8', may, f'row {row}: a worker thread is created', th[0].site,
+                                 '' if may else f'a worker is spawned although the pool already has max threads: {row}')
                     inpool = 'm_poolMutex' in th[0].locks
                     ti = E.index(th[0])
                     rel = next((i for i in range(ti, len(E)) if E[i].kind == 'release' and E[i].obj == 'm_poolMutex'), len(E))
@@ -466,16 +506,17 @@ class TPAnalysis:
                 dom = TPDomain(dict(atoms, pool_empty=True, queue0_empty=True, max_vs_size=sgn, max_sign=sgn)); dom.fields = fields
                 row = f'({what}: |pool| = 0, queue empty, max {"< 0" if neg else "> 0"}, flag={atoms["running"]}' + ''.join(f', {x} = {v}' for x, v in sorted(fields.items())) + ')'
                 n += 1
-                for P, E in run_paths(self.facts, f, dom):
-                    if P.end in ('throw', 'noreturn'): continue
+                rp = [(P, E) for P, E in run_paths(self.facts, f, dom) if P.end not in ('throw', 'noreturn')]
+                none_spawns = bool(rp) and not any(evs(E, 'thread') for P, E in rp)
+                for P, E in rp:
                     th = evs(E, 'thread')
                     inst = f'row {row}: with an empty pool start() creates the worker that will run the task'
                     if th: self.add('TP.8', True, inst, th[0].site); continue
                     forks = [c for c, val, how in P.decisions if how == 'fork']
-                    if forks: self.add('TP.8', None, inst, forks[0].shortloc(), f'this path creates no worker; it depends on `{forks[0].text()[:80]}`, whose value in a pool without workers is not followed')
+                    if forks and not none_spawns: self.add('TP.8', None, inst, forks[0].shortloc(), f'this path creates no worker; it depends on `{forks[0].text()[:80]}`, whose value in a pool without workers is not followed')
                     else:
-                        drift = '; '.join(f'{x} is {v} here because a worker that leaves through the {why} exit (return at {self.effect_site.get((x, why), ("", "?"))[1]}) leaves its last write at {self.effect_site.get((x, why), ("?", ""))[0]} in place' for x, why, v in notes)
-                        self.add('TP.8', False, inst, site, f'no worker is created although the pool has none {row}: the task stays queued until some later start() happens to spawn one' + (f' — {drift}' if drift else ''))
+                        drift = '; '.join(f'{x} is {fields.get(x)} here: {why}' for x, why, v in notes if x in fields)
+                        self.add('TP.8', False, inst, site, f'no worker is created although the pool has none {row}' + (' (whatever the conditions the row leaves open evaluate to)' if forks else '') + ': the task stays queued until some later start() happens to spawn one' + (f' — {drift}' if drift else ''))
         self.n_start_rows = n
         # templated start: every instantiation allocates a TRunnable and hands it to start(Runnable*)
         inst = [g for g in self.facts.by_name_prefix(f'{TP}::start<')] if hasattr(self.facts, 'by_name_prefix') else [g for g in self.facts.fns if g.gname == f'{TP}::start' and g.d.get('instantiation')]
@@ -596,6 +637,7 @@ class TPAnalysis:
                     while x is not None and x.k in ('cast', 'paren') and x.n('sub') is not None: x = x.n('sub')
                     if how_ == 'fork' and x is not None and x.k == 'call' and (x.calleeq or '').split('::')[-1] in ('joinable', 'isJoinable') and val_ is want: notj += 1
                 ok_c = len(joins) + notj >= iters and (iters == 0 or bool(joins) or notj >= iters)
+                for j_ in joins: self.join_locks = getattr(self, 'join_locks', set()) | set(j_.locks)
                 once('TP.6c', ok_c, f'stop() {row}: every worker in m_pool is joined after the flag is cleared ({iters} pool element(s) on this path)', joins[0].site if joins else site,
                      '' if ok_c else f'{iters} worker(s) in m_pool but {len(joins)} join(s) after the stop flag: stop() returns while workers still run tasks')
                 clr = [e for e in E[wi:] if e.kind == 'call' and e.obj == 'm_pool' and e.name.split('::')[-1] in ('clear', 'erase', 'pop_front', 'pop_back')]
@@ -606,10 +648,27 @@ class TPAnalysis:
                 qclear = [e for e in E if e.kind == 'enter' and e.name == f'{TP}::clear'] or [e for e in E if e.kind == 'call' and e.obj == 'm_queue' and e.name.endswith('::clear')]
                 once('TP.6d', bool(qclear), 'stop(): queued tasks are destroyed (clear())', qclear[0].site if qclear else site, '' if qclear else 'tasks still queued at stop() are never destroyed')
 
+    def observers_vs_join(self):
+        """TP.9: stop() blocks in join() with some mutexes held; a const observer of the pool (getThreadCount(), isRunning(), …) is what a
+        running task can call to look at its pool, so it must not need one of them: the task would wait for stop(), which waits for the task"""
+        held = {l for l in getattr(self, 'join_locks', set()) if l}
+        if not held or 'stop' not in self.fn: return
+        n = 0
+        for g in self.facts.fns:
+            if g.d.get('class') != TP or not g.d.get('const') or g.d.get('access') not in (None, 'public') or g.d.get('lambda') or g.d.get('instantiation'): continue
+            try: res = run_paths(self.facts, g, TPDomain({}))
+            except Inconclusive: continue
+            acq = [e for P, E in res for e in E if e.kind == 'acquire' and e.obj in held]
+            n += 1
+            short = g.name.split('::')[-1]
+            self.add('TP.9', not acq, f'{short}() const does not need a mutex that stop() holds while it joins the workers ({", ".join(sorted(held))})', acq[0].site if acq else g.shortloc(),
+                     '' if not acq else f'{short}() locks {acq[0].obj}, which stop() holds across Thread::join(): a task that calls {short}() while the pool is being stopped waits for stop(), and stop() waits in join() for that task — stop() never returns')
+        self.n_observers = n
+
     def run(self):
         if self.rep.broken: return
         self.any_pool_visit = False
-        self.locks(); self.worker(); self.thread_start(); self.start(); self.clear(); self.stop()
+        self.locks(); self.worker(); self.thread_start(); self.start(); self.clear(); self.stop(); self.observers_vs_join()
         if 'stop' in self.fn and not self.any_pool_visit:
             self.add('TP.6c', None, 'stop()', self.fn['stop'].shortloc(), 'no traversal of m_pool after the stop flag recognised')
 
